@@ -592,3 +592,5 @@ def _run(world: World, plan):
     return common.finish(world, nontrivial, sig)
 
 INFO['rule'] += ' Round-5 additions: the slot limit is also changed by replacing settings.transfers.limits or settings.transfers as a whole.'
+
+INFO['rule'] += ' Round-6 additions: the application calls abort / pause again while its first abort is still closing the file connection (twice, slow_close), and blocks the user of the running upload shortly before aborting it (block).'
